@@ -3,6 +3,8 @@
 mod checks;
 mod common;
 mod ehist;
+mod enet;
+mod netrun;
 mod refdns;
 
 fn main() {
@@ -50,6 +52,17 @@ fn main() {
     } else {
         (args[2].clone(), None)
     };
+    if tier == "worker" {
+        // erbium-verif <PROP> worker <tier> <shard> <nshards>
+        common::logsink::install(log::LevelFilter::Trace);
+        let t = args[3].as_str();
+        let shard: usize = args[4].parse().unwrap();
+        let n: usize = args[5].parse().unwrap();
+        match prop {
+            "C03" => netrun::worker(prop, t, shard, n, checks::c03::cases, checks::c03::run_case),
+            _ => std::process::exit(2),
+        }
+    }
     if replay.is_none() && tier != "quick" && tier != "thorough" {
         eprintln!("tier must be quick or thorough");
         std::process::exit(2);
@@ -61,6 +74,7 @@ fn main() {
         "C01" | "C09" | "C10" | "C13" => checks::dhcp_hist::run(prop, &tier, replay),
         "C12" => checks::c12::run(&tier, replay),
         "C14" => checks::c14::run(&tier, replay),
+        "C03" => checks::c03::run(&tier, replay),
         "C17" => checks::c17::run(&tier, replay),
         "C05" => checks::c05::run(&tier, replay),
         "C04" => checks::c04::run_function_only(&tier, replay),
